@@ -57,14 +57,26 @@ func addMetaOrigin(cs *gen.Case, pick int) bool {
 		return false
 	}
 	d := plain[pick%len(plain)]
-	d.Origin = &gen.Call{Name: "meta", Args: []gen.Expr{gen.A("cfg"), gen.S("key_" + d.Name)}}
-	if cs.Meta["cfg"] == nil {
-		cs.Meta["cfg"] = map[string]string{}
+	// the metadata lives on one of the accounts (and under one of the keys) that the script's
+	// own set_account_meta statements write to, or on a separate account
+	acct, key := "cfg", "key_"+d.Name
+	if pick%3 != 0 {
+		acct = []string{"a", "b", "c"}[pick%3]
+		key = []string{"k", "k2", "memo"}[(pick/3)%3]
+		for _, e := range cs.Script.Vars {
+			if e.Origin != nil && e.Origin.Name == "meta" {
+				acct, key = "cfg", "key_"+d.Name // one shared entry only
+			}
+		}
 	}
-	cs.Meta["cfg"]["key_"+d.Name] = cs.Vars[d.Name]
+	d.Origin = &gen.Call{Name: "meta", Args: []gen.Expr{gen.A(acct), gen.S(key)}}
+	if cs.Meta[acct] == nil {
+		cs.Meta[acct] = map[string]string{}
+	}
+	cs.Meta[acct][key] = cs.Vars[d.Name]
 	// unrelated metadata the store also holds
-	cs.Meta["cfg"]["unrelated"] = "zzz"
-	cs.Meta["other"] = map[string]string{"key_" + d.Name: "USD 999"}
+	cs.Meta[acct]["unrelated"] = "zzz"
+	cs.Meta["other"] = map[string]string{key: "USD 999"}
 	delete(cs.Vars, d.Name)
 	return true
 }
